@@ -64,6 +64,29 @@ func mainTraceFirst(files []string) []string {
 	return files
 }
 
+// writtenBytes returns the content of the one regular file that the complete store created or changed (nil when that is
+// not exactly one file).
+func writtenBytes(pre, after string) []byte {
+	var found []string
+	_ = filepath.Walk(after, func(p string, info os.FileInfo, err error) error {
+		if err != nil || info.IsDir() {
+			return nil
+		}
+		rel, _ := filepath.Rel(after, p)
+		a, _ := os.ReadFile(p)
+		b, berr := os.ReadFile(filepath.Join(pre, rel))
+		if berr != nil || !bytes.Equal(a, b) {
+			found = append(found, p)
+		}
+		return nil
+	})
+	if len(found) != 1 {
+		return nil
+	}
+	data, _ := os.ReadFile(found[0])
+	return data
+}
+
 func traceStore(env *storeEnv, reqs []childReq, dir, scratch string) ([]sysCall, int, error) {
 	prefix := filepath.Join(scratch, "trace")
 	in, _ := json.Marshal(reqs)
@@ -301,11 +324,21 @@ func c20Run(env *storeEnv, sc c20Scenario, work string) (int, int, error) {
 			if rerr != nil {
 				return 0, 0, fmt.Errorf("HARNESS-SELFTEST cannot read the file being written in the crash state: %v", rerr)
 			}
-			payload := sc.NewDoc
+			// the bytes this store writes are taken from what the complete (traced) run left on disk — the one file that
+			// is new or changed there — not assumed to be the marshalled document (the entry format is the store's
+			// business); protobuf field boundaries are added only when those bytes are the marshalled document
+			payload := writtenBytes(pre, traced)
+			if payload == nil {
+				payload = sc.NewDoc
+			}
 			// offset of this write inside the payload = bytes already in the file
 			off := len(cur)
 			if off+c.NBytes > len(payload) {
 				off = 0
+			}
+			if off+c.NBytes > len(payload) {
+				hx.Class("torn_writes_not_synthesised(write is not a slice of the final entry)")
+				continue
 			}
 			var ps []int
 			if c.NBytes <= 512 {
@@ -320,7 +353,11 @@ func c20Run(env *storeEnv, sc c20Scenario, work string) (int, int, error) {
 			}
 			// offsets at which the payload is a sequence of complete top-level protobuf fields (the prefixes
 			// that decode without error)
-			for _, fb := range topLevelFieldBoundaries(payload) {
+			var boundaries []int
+			if bytes.Equal(payload, sc.NewDoc) {
+				boundaries = topLevelFieldBoundaries(payload)
+			}
+			for _, fb := range boundaries {
 				if fb > off && fb < off+c.NBytes {
 					ps = append(ps, fb-off)
 				}
@@ -424,13 +461,18 @@ func c20Run(env *storeEnv, sc c20Scenario, work string) (int, int, error) {
 		}
 		thirdDoc := decode(third)
 		for i, st := range follow {
-			if sr.Res[i].Err != "" {
-				return len(states), nontrivial, fmt.Errorf("scenario %s, state %q: a store after the crash fails: %s", sc.Name, st.What, sr.Res[i].Err)
-			}
+			// the statement constrains what a later retrieve returns: a complete document or an error. Whether a store
+			// after the crash succeeds (a stale lock may make it refuse) is not stated; what it leaves must again be
+			// one of the complete documents — never a mixture with what the crashed store left behind.
+			hx.ClassIf(sr.Res[i].Err != "", "post-crash_store_refused")
 			x := rr.Res[i*perState]
 			raw, _ := base64.StdEncoding.DecodeString(x.Doc)
-			if x.Err != "" || !proto.Equal(decode(raw), thirdDoc) {
-				return len(states), nontrivial, fmt.Errorf("scenario %s, state %q: after a completed store following the crash, retrieve does not return that document (err=%q, got %d bytes, want %d)", sc.Name, st.What, x.Err, len(raw), len(third))
+			if x.Err == "" {
+				got := decode(raw)
+				ok := proto.Equal(got, thirdDoc) || proto.Equal(got, decode(sc.NewDoc)) || (sc.OldDoc != nil && proto.Equal(got, decode(sc.OldDoc)))
+				if !ok {
+					return len(states), nontrivial, fmt.Errorf("scenario %s, state %q: after the crash and a further store (err=%q), retrieve returns a document that is none of the complete ones (got %d bytes; stored afterwards: %d bytes)", sc.Name, st.What, sr.Res[i].Err, len(raw), len(third))
+				}
 			}
 			if neighbourID != "" {
 				y := rr.Res[i*perState+1]
